@@ -8,6 +8,7 @@ import ShexerModel.Model.MergeE
 import ShexerModel.Model.Nt
 import ShexerModel.Model.Ttl
 import ShexerModel.Model.History
+import ShexerModel.Model.Tsv
 import ShexerModel.Spec.Counts
 import ShexerModel.Spec.ShExSem
 open Shexer
@@ -143,6 +144,16 @@ def runCase (st : DState) (what id : String) : List String :=
           | .bnode v => "BNode\t" ++ v
           | .lit dt => "Literal\t" ++ dt
         match Nt.parseLine l.toList with
+        | .ok (some t) => "OK\t" ++ term t.s ++ "\t" ++ t.p ++ "\t" ++ term t.o
+        | .ok none => "DROPPED"
+        | .error _ => "EXC"
+    | "tsvlines" =>
+      st.rawLines.toList.map fun l =>
+        let term : Term → String
+          | .iri v => "IRI\t" ++ v
+          | .bnode v => "BNode\t" ++ v
+          | .lit dt => "Literal\t" ++ dt
+        match Tsv.parseLine l.toList with
         | .ok (some t) => "OK\t" ++ term t.s ++ "\t" ++ t.p ++ "\t" ++ term t.o
         | .ok none => "DROPPED"
         | .error _ => "EXC"
